@@ -52,6 +52,6 @@ Inv ==
          IN /\ (r.ok => r.kind = "" /\ r.v # "")
             /\ (~r.ok => r.kind \in Kinds)
             /\ (r.kind = "parse-value" => r.ty \in Types)
-            /\ h = UnknownHelp \/ Len(h) >= 2
+            /\ h = UnknownHelp \/ h = OpenHelp \/ Len(h) >= 2
     /\ NoDupLines(ListLines(id))
 =============================================================================
